@@ -484,6 +484,11 @@ class ExprMixin:
         if k == "dict":
             key = self.coerce(x, cont.ty.args[0], st)
             return st.dict_dom(cont.ty, cont.t)[key.t]
+        if k == "obj":
+            if x.ty.kind == "str" and z3.is_string_value(x.t):
+                decl = self.reg.classes.get(cont.ty.args[0])
+                return z3.BoolVal(decl is not None and x.t.as_string() in decl["fields"])
+            raise Unsupported("'in' on a record with a non-constant key")
         if k == "map":
             key = self.coerce(x, cont.ty.args[0], st)
             return cont.t[0][key.t]
@@ -551,6 +556,14 @@ class ExprMixin:
             if not z3.is_int_value(idx.t):
                 raise Unsupported("tuple index must be constant")
             return base.items[idx.t.as_long()]
+        if k == "obj":
+            if idx.ty.kind == "str" and z3.is_string_value(idx.t):
+                f = idx.t.as_string()
+                decl = self.reg.classes.get(base.ty.args[0])
+                if decl is None or f not in decl["fields"]:
+                    raise Unsupported("record %s has no field %r" % (base.ty.args[0], f))
+                return self.getattr_sv(base, f, st, ctx, node)
+            raise Unsupported("record subscript must be a constant string")
         if k == "str":
             i = self.num(idx, st).t
             n = z3.Length(base.t)
@@ -662,6 +675,16 @@ class ExprMixin:
     def ev_Dict(self, node, st, ctx):
         keys = [self.ev(k, st, ctx) for k in node.keys]
         vals = [self.ev(v, st, ctx) for v in node.values]
+        if keys and all(k.ty.kind == "str" and z3.is_string_value(k.t) for k in keys):
+            ks = sorted(k.t.as_string() for k in keys)
+            for cname, decl in self.reg.classes.items():
+                if decl.get("record") and sorted(decl["fields"]) == ks:
+                    r = st.new_ref()
+                    for k, v in zip(keys, vals):
+                        f = k.t.as_string()
+                        fty = decl["fields"][f]
+                        st.set_field(cname, f, fty, r, self.coerce(v, fty, st).t)
+                    return SV(Obj(cname), r)
         if keys and all(v.ty.kind == "int" and v.none is None for v in vals):
             vty = INT
         elif not keys and self.hint_dict is not None:
